@@ -2,7 +2,7 @@
 (***************************************************************************)
 (* Trace validation for C19 against layer A.  Every line of traces.ndjson  *)
 (* is one run of the real OnFinished:                                      *)
-(*   [jobs |-> <<[path, content], ...>>,                                   *)
+(*   [jobs |-> <<[path, content], ...>>, withpp |-> BOOLEAN,               *)
 (*    ev   |-> the events observed through the public interfaces, in the   *)
 (*            order of the harness' single mutex-protected log (a real     *)
 (*            order: ppBegin/wBegin are logged inside the callback before  *)
@@ -18,16 +18,17 @@ EXTENDS PersistSpec, Sequences, TLC, Json
 Traces == ndJsonDeserialize("traces.ndjson")
 
 VARIABLES tr, l
-tvars == <<n, st, ret, tr, l>>
+tvars == <<n, withPP, st, ret, tr, l>>
 
 T == Traces[tr]
 Ev == T.ev[l]
-PPStr(c) == "pp(" \o c \o ")"
+PPStr(c) == IF withPP THEN "pp(" \o c \o ")" ELSE c
 JobsAt(p) == {j \in AJobs : T.jobs[j].path = p}
 
 TInit == /\ tr \in 1..Len(Traces)
          /\ l = 1
          /\ n = Len(Traces[tr].jobs)
+         /\ withPP = Traces[tr].withpp
          /\ st = [j \in 1..Len(Traces[tr].jobs) |-> "idle"]
          /\ ret = "none"
 
